@@ -35,7 +35,7 @@ theorem foldUniques_nil (now : Int) (newData : Val) (l : List Index) (c c' : Col
       if !ix.unique then pure c
       else do
         let kwargs ← valuesFor ix.keys newData
-        let skip := ix.sparse && kwargs.all (fun kv => match kv.2 with | .null => true | _ => false)
+        let skip := ix.sparse && kwargs.all isNullCond
         if skip then pure c
         else do
           let filter := match ix.partialFilter with
